@@ -1,14 +1,18 @@
 #!/bin/bash
-# usage: try_mutant.sh <patch.diff> <ID> [tier]  -- applies the patch to /repo, runs the check, reverts
+# usage: try_mutant.sh <patch.diff> <ID> [tier]  -- applies the patch to a scratch worktree of /repo (TRY_REPO=/repo for the live tree), runs the check there, reverts
 patch=$1; id=$2; tier=${3:-quick}
-cd /repo || exit 9
+# the change is applied to a scratch worktree of /repo at HEAD (TRY_REPO, default /tmp/wt9), never to /repo itself
+repo=${TRY_REPO:-/tmp/wt9}
+[ -d "$repo" ] || git -C /repo worktree add -q --detach "$repo" HEAD || exit 9
+cd "$repo" || exit 9
+[ "$(git rev-parse HEAD)" = "$(git -C /repo rev-parse HEAD)" ] || git checkout -q --detach "$(git -C /repo rev-parse HEAD)"
 git diff --quiet || { echo "repo dirty"; exit 9; }
 git apply "$patch" || { echo "APPLY-FAILED"; exit 9; }
 cd /verif
 # the evidence file committed under /verif must describe the unchanged tree: keep it aside while the changed tree is checked
 [ -f evidence/$id.json ] && cp evidence/$id.json /tmp/try_$$.evidence
-timeout 1800 ./check $id --tier $tier > /tmp/try_$$.log 2>&1; rc=$?
+timeout 1800 ./check $id --tier $tier --repo "$repo" > /tmp/try_$$.log 2>&1; rc=$?
 [ -f /tmp/try_$$.evidence ] && mv /tmp/try_$$.evidence evidence/$id.json
-git -C /repo checkout -- . ; git -C /repo clean -fdq internal
+git -C "$repo" checkout -- . ; git -C "$repo" clean -fdq internal
 echo "rc=$rc $(grep -c '^VIOLATION' /tmp/try_$$.log) violations; $(grep -E '^(VIOLATION|INCONCLUSIVE|  violated)' /tmp/try_$$.log | head -3 | cut -c1-220 | tr '\n' '|')"
 rm -f /tmp/try_$$.log
